@@ -27,7 +27,7 @@ Definition col_obs : Type :=
   (bool * bool * (rce * bool) * list rce * bool * (rce * bool) * option rce * Z * bool)%type.
 (* observations of the multi-column operations on (a, b) *)
 Definition range_obs : Type :=
-  (range * option range * bool * bool * option Z * (list range * bool) * bool * option range)%type.
+  (range * option range * bool * bool * option Z * (list range * bool) * bool * option range * option range)%type.
 
 Inductive case : Type :=
 | CCut (a b : cut) (c : Z)
@@ -48,14 +48,15 @@ Definition ok (c : case) : bool :=
     (let m := try_intersect r o in rce_eqb (fst m) (fst ti) && Bool.eqb (snd m) (snd ti)) &&
     option_eqb rce_eqb (try_union r o) tu && Z.eqb (Z.of_N (rtype r)) ty && Bool.eqb (rce_equals r o) eq
   | CSimp rs out => list_eqb rce_eqb (simplify_range_column rs) out
-  | CRange a b (inter, merge, subset, ovl, cmp, ro, eq, ir) =>
+  | CRange a b (inter, merge, subset, ovl, cmp, ro, eq, ir, ir4) =>
     range_eqb (r_intersect a b) inter && option_eqb range_eqb (try_merge a b) merge &&
     Bool.eqb (r_is_subset_of a b) subset && Bool.eqb (r_overlaps a b) ovl &&
     option_eqb Z.eqb (option_map cmpZ (r_compare a b)) cmp &&
     (match remove_overlap_top a b with
      | Some (l, f) => ranges_eqb l (fst ro) && Bool.eqb f (snd ro)
      | None => false end) &&
-    Bool.eqb (r_equals a b) eq && option_eqb range_eqb (intersect_ranges [a; b]) ir
+    Bool.eqb (r_equals a b) eq && option_eqb range_eqb (intersect_ranges [a; b]) ir &&
+    option_eqb range_eqb (intersect_ranges [[]; b; []; a; b]) ir4
   | CRor rs finds fuel res hung =>
     match fst (remove_overlapping_ranges (Z.to_nat fuel) finds rs), res, hung with
     | ROk out, Some o, false => ranges_eqb out o
